@@ -6,7 +6,7 @@
    functional definition), StandardExamples (6.10.3.5 verbatim), <>Finished under
    weak fairness.  Sensitivity control: with HideFix = FALSE (a function-like
    expansion forgets its own name) TLC must find the non-terminating behaviour.
-2. Generate -> replay: every finished behaviour of the families F1..F10 is one
+2. Generate -> replay: every finished behaviour of the families F1..F12 is one
    input; `chibicc -E` of the tree under test must print exactly the expected
    pp-token spellings (harness tokenizer, validated against Lexer.tla by C19 and
    here on a sample); a per-process timeout decides termination.  Inputs whose
@@ -27,7 +27,7 @@ _LOCK = threading.Lock()
 
 # family -> (number of cases, quick stride, thorough stride); strides are primes that do not divide the radices
 FAMS = {"F1": (140544, 127, 1), "F2": (44376, 53, 1), "F3": (6615, 11, 1), "F4": (12433, 7, 1), "F5": (21, 1, 1), "F6": (26, 1, 1),
-        "F7": (36980, 97, 1), "F8": (3200, 3, 1), "F9": (392, 1, 1), "F10": (110, 1, 1)}
+        "F7": (36980, 97, 1), "F8": (3200, 3, 1), "F9": (392, 1, 1), "F10": (110, 1, 1), "F11": (216, 1, 1), "F12": (18, 1, 1)}
 
 EXTRAS = [   # closed hand-written list: expansion next to directives, shape of the remaining predefined dynamic macros
     ("emptyexp-then-directive", "#define E\nx E\n#define Y 1\nY\n", ["x", "1"]),
@@ -36,7 +36,14 @@ EXTRAS = [   # closed hand-written list: expansion next to directives, shape of 
     ("emptyexp-then-if", "#define E\n#define G() E\nG()\n#if 1\nok\n#endif\n", ["ok"]),
     ("funlike-name-then-directive", "#define f(x) x\nf\n#define Y 4\nY\n", ["f", "4"]),
     ("redefine-between", "#define A 1\nA\n#undef A\n#define A 2\nA\n", ["1", "2"]),
+    ("paste-ppnumber-in-if", "#define CAT(a,b) a##b\n#if CAT(0x,FE) == 254 && CAT(0xA,E) == 174\nyes\n#else\nno\n#endif\n", ["yes"]),
+    ("paste-ppnumber-then-tokens", "#define CAT(a,b) a##b\n#define S(x) #x\n#define XS(x) S(x)\nXS(CAT(0x,FE) z CAT(1,p) w)\n", ['"0xFE z 1p w"']),
     ("kind-by-space", "#define f (x) y\nf(1)\n#define g(x) (x)\ng(1)\n", ["(", "x", ")", "y", "(", "1", ")", "(", "1", ")"]),
+]
+# -D values are tokenised from a buffer of their own: a value ending in an exponent letter ends the buffer
+EXTRAS_D = [
+    ("cmdline-ppnumber-if", ["-DV=0xFE", "-DW=0xAE", "-DX=1e"], "#if V == 254 && W == 174\nyes\n#else\nno\n#endif\n", ["yes"]),
+    ("cmdline-ppnumber-stringize", ["-DV=0xFE", "-DX=1p"], "#define S(x) #x\n#define XS(x) S(x)\nXS(V z X w) V\n", ['"0xFE z 1p w"', "0xFE"]),
 ]
 SHAPES = [("__DATE__", r'"[A-Z][a-z][a-z] [ 0-9][0-9] [0-9]{4}"'), ("__TIME__", r'"[0-9]{2}:[0-9]{2}:[0-9]{2}"'),
           ("__TIMESTAMP__", r'"[A-Z][a-z][a-z] [A-Z][a-z][a-z] [ 0-9][0-9] [0-9]{2}:[0-9]{2}:[0-9]{2} [0-9]{4}"'),
@@ -168,6 +175,15 @@ def run_extras(ctx, chib):
         if toks != exp:
             ctx.report("extra:%s" % name, "input %r: expected %s got %s %s" % (text, exp, toks, ppcase.errmsg(err) if rc else ""),
                        case=dict(kind="extra", name=name, text=text, expected=exp, got=toks))
+    for name, opts, text, exp in EXTRAS_D:
+        f = os.path.join(chib.dir, "xd-%s.c" % name)
+        open(f, "w").write(text)
+        rc, out, err = ppcase.run_limited(chib.cmd + opts + [f], chib.timeout)
+        toks = pptok.lex(out) if rc == 0 else None
+        ctx.note_case("extra:" + name)
+        if toks != exp:
+            ctx.report("extra:%s" % name, "options %s input %r: expected %s got %s %s" % (opts, text, exp, toks, ppcase.errmsg(err) if rc else ""),
+                       case=dict(kind="extra", name=name, text=text, expected=exp, got=toks))
     for name, rx in SHAPES:
         rc, out, err, f = chib.run_text(name + "\n", "s-" + name)
         toks = pptok.lex(out) if rc == 0 else None
@@ -175,7 +191,7 @@ def run_extras(ctx, chib):
         good = toks is not None and len(toks) == 1 and (re.fullmatch(rx, toks[0]) if rx else toks[0] == '"%s"' % f)
         if not good:
             ctx.report("shape:%s" % name, "%s expands to %s" % (name, toks), case=dict(kind="shape", name=name, got=toks))
-    ctx.cov["traces_validated_against_impl"] += len(EXTRAS) + len(SHAPES)
+    ctx.cov["traces_validated_against_impl"] += len(EXTRAS) + len(EXTRAS_D) + len(SHAPES)
 
 
 def layout_generate(ctx, workers):
@@ -309,7 +325,7 @@ def trace_validation(ctx, tree, cases):
 
 def tools(ctx, tree):
     chib = ppcase.Runner(ctx, "chibicc", [tree + "/chibicc", "-E"], timeout=5)
-    gcc = ppcase.Runner(ctx, "gcc", ["cc", "-E", "-P", "-w"], timeout=20)
+    gcc = ppcase.Runner(ctx, "gcc", ["cc", "-E", "-P", "-w"], timeout=20, ucn=True)
     return chib, gcc
 
 
@@ -319,7 +335,7 @@ def run(ctx):
     chib, gcc = tools(ctx, tree)
     ctx.phase("build done")
     jobs = []
-    merged = ("F5", "F9", "F10")          # always complete: one TLC run (pseudo-family FS) enumerates all three
+    merged = ("F5", "F9", "F10", "F11", "F12")          # always complete: one TLC run (pseudo-family FS) enumerates all three
     for fam, (n, qs, ts) in list(FAMS.items()) + [("FS", (0, 1, 1))]:
         if fam in merged:
             continue
